@@ -1,7 +1,10 @@
 #!/bin/bash
 # tools/verify_seed.sh <worktree> : confirm an independently written breaking change
-# (suite passes with the patch; demo fails with it and passes without it)
+# (suite passes with the patch; demo fails with it and passes without it). Runs in a private network namespace
+# because the circus test-suite uses fixed ports.
 wt=$1
+if [ -z "$IN_NS" ]; then exec unshare -n env IN_NS=1 "$0" "$@"; fi
+ip link set lo up 2>/dev/null
 cd $wt || exit 2
 demo=$(ls SEED/demo*.py | head -1)
 run_demo() { if [[ "$demo" == *test* ]]; then timeout 300 /venv/bin/python -m pytest -q -p no:cacheprovider -p no:hypothesispytest "$demo" >/dev/null 2>&1; else timeout 300 /venv/bin/python "$demo" >/dev/null 2>&1; fi; echo $?; }
